@@ -190,6 +190,12 @@ def check(ctx):
     # V1 for the raw path as well (translate_raw)
     gencore.v1(ctx, 150 if quick else 1500, which=("opt", "raw"))
     raw_path(ctx, ctx.tier)
+    # ... and the optimized build of the derive corpus against the same PEG spec (verdict / offset, then pair tree): both
+    # sides of the pest_optimizer switch are compared with one reference, hence with each other
+    # (T2 of the optimized build + the search for a failing input where it breaks; differences between the typed parser and
+    # pest that exist with the optimizer on AND off are C01's / C02's business, not an effect of the option)
+    gencore.analyze(ctx, ctx.tier, "offset", do_t3=False)
+    gencore.analyze(ctx, ctx.tier, "tokens", do_t3=False)
     try:
         from .. import boxing
         boxing.check_boxing(ctx, ctx.tier)
